@@ -219,6 +219,23 @@ def scope(ctx, r):
             r.ob(ok, f"resolve.rs:{f['name']}:{v}:binding-scope", RES, call["l"],
                  f"{f['name']}: the pattern of `{v}` is bound in {'a fresh scope' if fresh else 'the enclosing scope'}; it must be bound in {'a scope created for the construct (its variables are visible in the body only)' if want == 'fresh' else 'the current scope'}",
                  sample=f"{v}: pattern bound in {'fresh' if fresh else 'current'} scope")
+    # functions that are siblings in a list (methods of an extend / implement block) get one scope each
+    n_sib = 0
+    for ff, _ in q.iter_items(items):
+        if ff["k"] != "Fn" or ff.get("body") is None:
+            continue
+        for lp in q.walk(ff["body"]):
+            if lp["k"] != "For":
+                continue
+            for c in q.walk(lp["body"]):
+                if c["k"] == "Call" and c["f"]["k"] == "Path" and q.last_seg(c["f"]["p"]) == "resolve_names_func_helper" and len(c["args"]) >= 2:
+                    n_sib += 1
+                    table = q.show(c["args"][1]).lstrip("&")
+                    own = any(x["k"] == "Local" and x.get("init") is not None and table in q.pat_bindings(x["pat"]) and x["init"]["k"] == "MethodCall" and x["init"]["m"] in ("new_scope", "new_closure_scope") for x in q.walk(lp["body"]))
+                    r.ob(own, f"resolve.rs:{ff['name']}:{q.show(lp['e'])}:scope-shared-between-siblings", RES, c["l"],
+                         f"{ff['name']}: the functions of `{q.show(lp['e'])}` are resolved one after another in the same scope `{table}`: the parameters of an earlier method stay visible in the later ones (`fn bb(self) {{ n }}` is accepted because `aa` has a parameter n, and the VM then reads a slot that does not exist)",
+                         sample=f"{q.show(lp['e'])}: one scope per method")
+    r.count("function lists resolved in a loop", n_sib, 2, RES)
     # lambdas and named functions bind parameters through resolve_names_func_helper on a fresh scope
     re_ = q.find_fn(items, "resolve_names_expr")
     arm = arm_of(re_, "ExprKind", "AnonymousFunction") if re_ else None
